@@ -12,7 +12,7 @@
 From Coq Require Import ZArith List Bool Sorted.
 Import ListNotations.
 From Verif Require Import Lib.Corr Lib.Downsample_Core Lib.Downsample_Aggr Lib.Downsample_Counter
-  Gen.C37 Model.C37 Proofs.C37.
+  Gen.C37 Model.C37 Proofs.C37 Proofs.C37_L2 Proofs.C37_L2v Proofs.C37_prog.
 Open Scope Z_scope.
 
 (* Level 1 (5m).  For every raw counter series, every resolution and EVERY value of
@@ -37,16 +37,15 @@ Print Assumptions C37_level1.
 (* The same through the level-1 clause [level_ok] of the boolean predicate that the check
    evaluates on the implementation's own read-out: values = adjusted counter, timestamps
    strictly increasing, last value = total adjusted counter (the whole increase is
-   preserved).  pred_ok additionally applies level_ok to the SECOND level (1h) and checks
-   Next/Seek programs: those two clauses are tied by execution only — this is the
-   "partial" in the property's level. *)
-Theorem C37_level1_pred_partial : forall res1 res2 num_chunks data,
+   preserved).  pred_ok applies level_ok to both levels (level 2: C37_level2_pred) and
+   additionally checks Next/Seek programs (C37_programs); the whole predicate is C37_pred. *)
+Theorem C37_level1_pred : forall res1 res2 num_chunks data,
   valid_input res1 res2 data = true ->
   exists l1 emitted,
     level1 res1 num_chunks data = Some l1 /\ read_counter l1 = Some emitted /\
     level_ok (keep_nonnan data) emitted = true.
 Proof. exact level1_pred. Qed.
-Print Assumptions C37_level1_pred_partial.
+Print Assumptions C37_level1_pred.
 
 (* The iterator on ANY sequence of counter chunks of the documented format (first raw
    value, non-decreasing per-window values at strictly increasing timestamps, last
@@ -69,18 +68,120 @@ Theorem C37_counter_chunk_format : forall res b, 0 < res -> counter_batch b ->
 Proof. intros res b H. exact (q_of_ok res H b). Qed.
 Print Assumptions C37_counter_chunk_format.
 
+(* Level 2 (1h), structure: for every raw counter series, every pair of
+   resolutions and every values of targetChunkCount at both levels (second-level batch size
+   >= 1): the second-level counter chunks are, per part of consecutive first-level chunks,
+   of the documented format [q2_of]: they start with the part's FIRST RAW sample, end with
+   the part's LAST RAW value at the part's last timestamp ("a chunk's first and last counter
+   values are the true values of the original series ... even across multiple aggregation
+   iterations"), have non-decreasing per-window values at strictly increasing timestamps,
+   and are time-ordered; hence (C37_iterator_stitches_chunks) reading them yields exactly
+   the stitched values [expect].  This holds for ANY pair of resolutions; that the values
+   are adj_at needs nesting windows and is C37_level2 below. *)
+Theorem C37_level2_structure : forall res1 res2 nc1 nc2 data l1 l2,
+  0 < res1 -> 0 < res2 ->
+  valid_counter res1 data -> (1 <= length l1 / nc2)%nat ->
+  level1 res1 nc1 data = Some l1 -> level2 res2 nc2 l1 = Some l2 ->
+  exists batches parts,
+    l1 = map (float_batch cw res1) batches /\ concat batches = keep_nonnan data /\
+    concat parts = batches /\ Forall (fun p : list (list (Z * Z)) => p <> []) parts /\
+    present k_counter l2 = map (fun p => q_samples (q2_of res1 res2 p)) parts /\
+    q_chain None (map (q2_of res1 res2) parts) /\
+    read_counter l2 = Some (expect None (map (q2_of res1 res2) parts)) /\
+    Forall counter_batch batches /\ Lib.Downsample_Raw.seps cw res1 batches.
+Proof. intros res1 res2 nc1 nc2 data l1 l2 H1 H2. exact (level2_structure res1 res2 H1 H2 nc1 nc2 data l1 l2). Qed.
+Print Assumptions C37_level2_structure.
+
+(* Level 2 (1h), values.  When the target resolution is a multiple of the first one
+   (5m -> 1h: the 5m windows nest in the 1h windows) and the second-level batch size is
+   >= 1: reading the counter aggregate after TWO levels of downsampling yields, at every
+   emitted timestamp, the raw counter adjusted for all resets up to the last raw sample at
+   or before it; timestamps strictly increasing; the last value is the total adjusted
+   counter.  For every raw counter series, both resolutions, EVERY targetChunkCount at
+   both levels. *)
+Theorem C37_level2 : forall res1 k nc1 nc2 data l1 l2,
+  0 < res1 -> 0 < k ->
+  valid_counter res1 data -> (1 <= length l1 / nc2)%nat ->
+  level1 res1 nc1 data = Some l1 -> level2 (k * res1) nc2 l1 = Some l2 ->
+  exists emitted,
+    read_counter l2 = Some emitted /\
+    Forall (fun s => snd s = adj_at (keep_nonnan data) (fst s)) emitted /\
+    StronglySorted Z.lt (map fst emitted) /\
+    (keep_nonnan data = [] -> emitted = []) /\
+    (keep_nonnan data <> [] ->
+       emitted <> [] /\ snd (last emitted (0, 0)) = adj (map snd (keep_nonnan data))).
+Proof. intros res1 k nc1 nc2 data l1 l2 H1 H2. exact (level2_full res1 k H1 H2 nc1 nc2 data l1 l2). Qed.
+Print Assumptions C37_level2.
+
+(* ... and through the level-2 clause of the check's boolean predicate. *)
+Theorem C37_level2_pred : forall res1 k nc1 nc2 data l1 l2,
+  0 < res1 -> 0 < k ->
+  valid_input res1 (k * res1) data = true -> (1 <= length l1 / nc2)%nat ->
+  level1 res1 nc1 data = Some l1 -> level2 (k * res1) nc2 l1 = Some l2 ->
+  exists emitted, read_counter l2 = Some emitted /\ level_ok (keep_nonnan data) emitted = true.
+Proof. intros res1 k nc1 nc2 data l1 l2 H1 H2. exact (level2_pred res1 k H1 H2 nc1 nc2 data l1 l2). Qed.
+Print Assumptions C37_level2_pred.
+
+(* Both levels end to end, through the predicate's clauses: for every valid raw counter,
+   resolutions res1 and k*res1, and EVERY targetChunkCount at both levels, the 5m pipeline
+   terminates and its read-out satisfies level_ok; if the second-level batch size is >= 1
+   the 1h pipeline terminates too and its read-out satisfies level_ok. *)
+Theorem C37_two_levels : forall res1 k nc1 nc2 data,
+  0 < res1 -> 0 < k -> valid_input res1 (k * res1) data = true ->
+  exists l1 read1,
+    level1 res1 nc1 data = Some l1 /\ read_counter l1 = Some read1 /\
+    level_ok (keep_nonnan data) read1 = true /\
+    ((1 <= length l1 / nc2)%nat ->
+     exists l2 read2,
+       level2 (k * res1) nc2 l1 = Some l2 /\ read_counter l2 = Some read2 /\
+       level_ok (keep_nonnan data) read2 = true).
+Proof. exact two_levels. Qed.
+Print Assumptions C37_two_levels.
+
+(* Next/Seek programs.  Seek is implemented with Next; whatever sequence of Next / Seek(x)
+   calls a consumer makes on the 5m chunks (until the first ValNone), it terminates and
+   every sample it gets is the adjusted raw counter at that sample's timestamp. *)
+Theorem C37_programs : forall res num_chunks data l1 prog,
+  valid_counter res data -> level1 res num_chunks data = Some l1 ->
+  exists pres,
+    run_prog prog (counter_toks l1) acr0 = Some pres /\
+    Forall (fun o => match o with Some s => snd s = adj_at (keep_nonnan data) (fst s) | None => True end) pres.
+Proof. exact programs_exact. Qed.
+Print Assumptions C37_programs.
+
+(* The whole boolean predicate of the check holds of the model's outputs (corr_ok states
+   that these outputs are the implementation's). *)
+Theorem C37_pred : forall res1 k nc1 nc2 data prog,
+  0 < res1 -> 0 < k -> valid_input res1 (k * res1) data = true ->
+  exists l1 read1 pres,
+    level1 res1 nc1 data = Some l1 /\ read_counter l1 = Some read1 /\
+    run_prog prog (counter_toks l1) acr0 = Some pres /\
+    ((1 <= length l1 / nc2)%nat ->
+     exists l2 read2,
+       level2 (k * res1) nc2 l1 = Some l2 /\ read_counter l2 = Some read2 /\
+       pred_ok (CCounter res1 (k * res1) nc1 nc2 data read1 read2 prog pres) = true).
+Proof. exact full_pred. Qed.
+Print Assumptions C37_pred.
+
 (* Non-vacuity: a counter with a reset inside the first chunk and one exactly between
-   the two chunks (batch size 3), 10 ms resolution. *)
+   the two chunks (batch size 3), 10 ms resolution; second level at 30 ms in two parts
+   and in one part. *)
 Example C37_nonvacuous :
   let data := [(0, Some 5); (4, Some 9); (12, Some 2); (15, None); (21, Some 6); (30, Some 1); (47, Some 3)] in
   valid_counter 10 data /\
   exists l1, level1 10 3 data = Some l1 /\ length l1 = 2%nat /\
     read_counter l1 = Some [(0, 5); (9, 9); (12, 11); (21, 15); (29, 15); (39, 16); (47, 18)] /\
-    adj (map snd (keep_nonnan data)) = 18.
+    adj (map snd (keep_nonnan data)) = 18 /\
+    (exists l2, level2 30 2 l1 = Some l2 /\ length l2 = 2%nat /\
+       read_counter l2 = Some [(0, 5); (12, 11); (21, 15); (29, 15); (47, 18)]) /\
+    (exists l2, level2 30 1 l1 = Some l2 /\ length l2 = 1%nat /\
+       read_counter l2 = Some [(0, 5); (29, 15); (47, 18)]).
 Proof.
   cbv zeta. split.
   - split; [reflexivity|]. split.
     + cbn [map fst]. repeat (constructor; [|repeat constructor; reflexivity]). constructor.
     + repeat constructor; cbn; try discriminate; exact I.
-  - eexists. split; [vm_compute; reflexivity|]. repeat split; vm_compute; reflexivity.
+  - eexists. split; [vm_compute; reflexivity|].
+    split; [vm_compute; reflexivity|]. split; [vm_compute; reflexivity|]. split; [vm_compute; reflexivity|].
+    split; (eexists; split; [vm_compute; reflexivity|]; split; vm_compute; reflexivity).
 Qed.
